@@ -15,7 +15,7 @@ PID = "C04"
 ALL = "1,2,3,4,5,6,7,8,9,10,11,12,13,14,15"
 CORE = "1,2,3,5,6,11,13"           # NL VT TAB C0 SP PLAIN XESC: the classes the translation distinguishes
 TEN = "1,2,3,4,5,6,7,8,11,13"       # + CR LT AMP (length 4)
-SITES3 = '"frame","cell","shape","nobody"'
+SITES3 = '"frame","cell","shape","nobody","spanned"'
 CFG = """SPECIFICATION Spec
 CONSTANTS MAXLEN = %(maxlen)d
  ALPHA = {%(alpha)s}
